@@ -850,6 +850,9 @@ def main(argv):
             engines = None
             if "--engines" in argv:
                 engines = argv[argv.index("--engines") + 1].split(",")
+            if what == "anchor":
+                import anchor_pregen
+                return 2 if anchor_pregen.main() else 0
             if what == "determinism":
                 n = int(argv[argv.index("--runs") + 1]) if "--runs" in argv else 200
                 return selftest_determinism(engines, n)
